@@ -97,6 +97,9 @@ def _make_body(i, awaits, oc):
             return (RetryCmd if sub else ps.Continue)(getattr(self, f'f{oc[1]}'), *oc[2], **{kw_name(a): b for a, b in oc[3].items()})
         if k == 'wait':
             return (ParkCmd if sub else ps.Wait)(getattr(self, f'f{oc[1]}'))
+        if k == 'stop' and self.__dict__.get('_verif_uout'):
+            # an output that cannot be copied (a handle holding a lock): outputs are handed on as they are, never cloned
+            self.out('handle', Uncopyable())
         if k == 'stop' and oc[1] == 'AW':
             return self.loop.create_future()        # an awaitable object returned as the plain result value
         if k == 'stop':
@@ -131,6 +134,17 @@ def _make_body(i, awaits, oc):
     return body
 
 
+class Uncopyable:
+    """a value that `copy.deepcopy` / pickle refuse (it holds a lock), as a file handle or a connection would"""
+
+    def __init__(self):
+        import threading
+        self.lock = threading.Lock()
+
+    def __repr__(self):
+        return 'Uncopyable()'
+
+
 _CLASS_CACHE = {}
 
 
@@ -145,11 +159,14 @@ def build_class(prog):
             py_oc = ('stop', oc[1], True) if (prog.get('missing_output') and oc[0] == 'stop') else oc
             ns[f'f{i}'] = _make_body(i, aw, py_oc)
         ns['run'] = ns['f0']
-        if prog.get('missing_output'):
-            def define(cls, spec):
-                super(klass, cls).define(spec)
+        missing_output = bool(prog.get('missing_output'))
+
+        def define(cls, spec):
+            super(klass, cls).define(spec)
+            spec.outputs.dynamic = True
+            if missing_output:
                 spec.output('required_but_never_emitted', required=True)
-            ns['define'] = classmethod(define)
+        ns['define'] = classmethod(define)
         klass = cls = type('GenProc', (plumpy.Process,), ns)
     else:
         n = len(prog['fns'])
@@ -363,7 +380,7 @@ class Run:
     """One real process under the deterministic loop. `do(op)` performs an environment op, `tick()` runs one callback;
     both append to .ops / .obs (the lines exchanged with the model) and to the raw records the monitors read."""
 
-    def __init__(self, prog, status0=None, plan=None, process=None, loop=None, loop_mode=None):
+    def __init__(self, prog, status0=None, plan=None, process=None, loop=None, loop_mode=None, driver='stock', uout=False):
         """`process` / `loop`: adopt an existing instance (one loaded from a Bundle in `loop`) instead of creating one"""
         logging.disable(logging.CRITICAL)
         self.prog = prog
@@ -387,6 +404,8 @@ class Run:
         if process is None:
             cls = build_class(prog)
             self.p = p = cls(loop=self.loop)
+            if uout:            # (not for the runs that are checkpointed: outputs are part of the saved state)
+                p.__dict__['_verif_uout'] = True
         else:
             self.p = p = process
         p._trace = []
@@ -444,7 +463,16 @@ class Run:
                     self.cleanups_other['late'] = -1
         p.add_cleanup(raising_cleanup)      # a failing cleanup must not keep the others from running
         p.add_cleanup(last_cleanup)
-        self.task = self.loop.create_task(p.step_until_terminated())
+        # who drives the process: the library's `step_until_terminated()` or a loop of the caller's own around the public `step()`
+        # (a scheduler that does something between two steps) - the same thing as far as any property is concerned
+        self.driver = driver
+        if driver == 'steps':
+            async def drive():
+                while not p.has_terminated():
+                    await p.step()
+            self.task = self.loop.create_task(drive())
+        else:
+            self.task = self.loop.create_task(p.step_until_terminated())
         self.handed = []          # action futures handed out by pause()/kill()
         self.ops, self.obs = [], []
         self.calls = []           # dict(op, phase, ret, raised, live, idx)
@@ -698,8 +726,12 @@ def loop_mode_for(sched):
     return 'none' if (sum(int(k) for k in sched) // 2) % 2 else 'foreign'
 
 
-def run_schedule(prog, schedule, max_cb=60, status0=None, plan=None, loop_mode=None):
-    r = Run(prog, status0=status0, plan=plan, loop_mode=loop_mode)
+def driver_for(sched):
+    return 'steps' if (sum(int(k) for k in sched) // 4) % 2 else 'stock'
+
+
+def run_schedule(prog, schedule, max_cb=60, status0=None, plan=None, loop_mode=None, driver='stock'):
+    r = Run(prog, status0=status0, plan=plan, loop_mode=loop_mode, driver=driver, uout=True)
     last = max(schedule.keys(), default=-1)
     n = 0
     while n < max_cb:
@@ -771,7 +803,7 @@ def _work(args):
     prog, sched, monitors = args[:3]
     plan = args[3] if len(args) > 3 else None
     import harness.pm_monitors  # noqa: F401  (registers the monitors)
-    r = run_schedule(prog, sched, status0=status0_for(sched), plan=plan, loop_mode=loop_mode_for(sched))
+    r = run_schedule(prog, sched, status0=status0_for(sched), plan=plan, loop_mode=loop_mode_for(sched), driver=driver_for(sched))
     fails = []
     for m in monitors:
         fails.extend(MONITORS[m](r))
